@@ -330,7 +330,7 @@ func genC02(x *Ctx) {
 	if x.Thorough() {
 		maxLen = 70000
 	}
-	for i, n := 0, x.N(60000, 3000000); i < n; i++ {
+	for i, n := 0, x.N(200000, 4000000); i < n; i++ {
 		x.Case(func(c *Case) {
 			r := c.R
 			var buf []byte
@@ -549,36 +549,47 @@ func observeC05(c *Case, desc *PacketIn, wire []byte, ops []c05Op) {
 var c05IDs = []int{0, 1, 2, 14, 15, 16, 254, 255}
 var c05Lens = []int{0, 1, 2, 15, 16, 17, 254, 255, 256, 300, 4, 8, 12, 20, 260}
 
-func c05GenOps(r *Rand, n int) []c05Op {
-	// a small pool of ids per history, so that updates and deletions of present ids happen
-	pool := make([]int, r.Range(1, 5))
-	for i := range pool {
-		pool[i] = r.Pick(append(append([]int{}, c05IDs...), r.Intn(256), r.Range(1, 14), r.Range(1, 14))...)
+// c05GenOps draws a history.  mode: 0 ids and lengths a one-byte block accepts (mostly), 1 two-byte,
+// 2 legacy (id 0, whole words mostly), 3 the boundary ids and lengths of the property, unfiltered.
+func c05GenOps(r *Rand, n int, mode int) []c05Op {
+	drawID := func() int {
+		switch mode {
+		case 0:
+			return r.Pick(1, 2, 14, r.Range(1, 14), r.Range(1, 14), r.Range(1, 14), 0, 15)
+		case 1:
+			return r.Pick(1, 2, 14, 15, 16, 254, 255, r.Range(1, 255), r.Range(1, 255), 0)
+		case 2:
+			return r.Pick(0, 0, 0, 0, 0, 1, 255)
+		}
+		return r.Pick(append(append([]int{}, c05IDs...), r.Intn(256))...)
 	}
-	// a length regime per history: small (one-byte forms live), medium, anything
-	regime := r.Intn(4)
+	drawLen := func() int {
+		switch mode {
+		case 0:
+			return r.Pick(1, 1, 2, 3, 4, 15, 16, r.Range(1, 16), r.Range(1, 16), 0, 17)
+		case 1:
+			return r.Pick(0, 1, 16, 17, 18, 100, 254, 255, r.Range(0, 255), r.Range(17, 255), 256)
+		case 2:
+			return r.Pick(4*r.Intn(76), 4*r.Intn(8), 0, 4, 256, 260, 300, r.Intn(300))
+		}
+		return c05Lens[r.Intn(len(c05Lens))]
+	}
+	// a small pool of ids per history, so that updates and deletions of present ids happen
+	pool := make([]int, r.Range(1, 6))
+	for i := range pool {
+		pool[i] = drawID()
+	}
 	ops := make([]c05Op, n)
 	for i := range ops {
 		id := pool[r.Intn(len(pool))]
 		if r.Chance(1, 8) {
-			id = r.Pick(append(append([]int{}, c05IDs...), r.Intn(256))...)
+			id = drawID()
 		}
 		if r.Chance(1, 4) {
 			ops[i] = c05Op{set: false, id: uint8(id)}
 			continue
 		}
-		var ln int
-		switch regime {
-		case 0:
-			ln = r.Pick(1, 1, 2, 3, 4, 15, 16, r.Range(1, 16), 0, 17)
-		case 1:
-			ln = r.Pick(0, 1, 16, 17, 18, 100, 254, 255, r.Range(0, 255), 256)
-		case 2:
-			ln = 4 * r.Pick(0, 1, 2, 3, 4, 5, 64, 65, 75, r.Intn(76))
-		default:
-			ln = c05Lens[r.Intn(len(c05Lens))]
-		}
-		ops[i] = c05Op{set: true, id: uint8(id), val: r.Bytes(ln)}
+		ops[i] = c05Op{set: true, id: uint8(id), val: r.Bytes(drawLen())}
 	}
 	return ops
 }
@@ -662,12 +673,30 @@ func genC05(x *Ctx) {
 		}
 	}
 	// (2) random histories of 0–30 operations
-	for i, n := 0, x.N(40000, 2000000); i < n; i++ {
+	for i, n := 0, x.N(150000, 3000000); i < n; i++ {
 		x.Case(func(c *Case) {
 			r := c.R
-			desc, wire, name := c05Start(r, r.Pick(0, 0, 1, 1, 2, 2, 3, 3, 4, 5, 6, 6))
+			kind := r.Pick(0, 0, 1, 1, 2, 2, 3, 3, 4, 5, 6, 6)
+			desc, wire, name := c05Start(r, kind)
 			c.Tag("start=" + name)
-			ops := c05GenOps(r, r.Pick(0, 1, 2, 3, 5, 8, 30, r.Range(0, 30), r.Range(0, 30)))
+			mode := r.Intn(4)
+			if r.Bool() { // a history that suits the start state
+				switch {
+				case kind == 1:
+					mode = 0
+				case kind == 2:
+					mode = 1
+				case kind == 3:
+					mode = 2
+				case desc != nil && desc.H.Extension && desc.H.ExtensionProfile == 0xBEDE:
+					mode = 0
+				case desc != nil && desc.H.Extension && desc.H.ExtensionProfile == 0x1000:
+					mode = 1
+				case desc != nil && desc.H.Extension:
+					mode = 2
+				}
+			}
+			ops := c05GenOps(r, r.Pick(0, 1, 2, 3, 5, 8, 30, r.Range(0, 30), r.Range(0, 30)), mode)
 			observeC05(c, desc, wire, ops)
 		})
 	}
